@@ -24,7 +24,7 @@ def translate(R):
             R.proof_problems.append("translator translators/mgmt does not build: " + out[-300:])
             return False
     with vlib.flock("coq-" + FAM):
-        rc, out = vlib.sh([exe, vlib.REPO, os.path.join(vlib.COQ, FAM, "GenConsts.v")], timeout=300)
+        rc, out = vlib.sh([exe, vlib.REPO, os.path.join(vlib.COQ, FAM, "GenConsts.v"), os.path.join(vlib.COQ, FAM, "Model.v")], timeout=300)
     R.log("translator: " + out.strip().split("\n")[-1][:200])
     if rc != 0:
         R.proof_problems.append("translator could not read the management sources: " + out.strip()[-600:])
